@@ -586,6 +586,10 @@ class Kernel(Module):
         # Process the index
         index = index if isinstance(index, tuple) else (index,)
 
+        # A kernel without batch-shaped parameters of its own (e.g. MultitaskKernel) still owns a batch shape
+        if len(self._batch_shape) == len(self.batch_shape):
+            new_kernel._batch_shape = torch.empty(*self._batch_shape, 0)[(*index, slice(None))].shape[:-1]
+
         for param_name, param in self.named_parameters(recurse=False):
             new_param = new_kernel.__getattr__(param_name)
             new_param.data = new_param.__getitem__(index)
